@@ -97,18 +97,35 @@ theorem cfb_new_terminates (file : Cfb.Bytes) (len : Nat) : Cfb.new file len ≠
 theorem cfb_new_no_panic (file : Cfb.Bytes) (len : Nat) (m : String) : Cfb.new file len ≠ .panic m :=
   Cfb.new_no_panic file len m
 
-/-- memory: what `Cfb::new` keeps is bounded by the length it is given — at most `len / 4` FAT entries, a mini
-    stream of at most `len` bytes — and every chain read later yields at most `len` bytes -/
+/-- memory: what `Cfb::new` keeps is bounded by what it has READ of the file (not by the `len` hint, on which
+    nothing depends): the allocation table (4 bytes per entry) and the mini stream are no larger than the sector
+    cache, and cache plus unread bytes are at most the file -/
 theorem cfb_new_alloc_bound (file : Cfb.Bytes) (len : Nat) (c : Cfb.CfbSt) (rd : Cfb.Bytes)
     (h : Cfb.new file len = .ok (c, rd)) :
-    c.fats.length ≤ len / 4 ∧ c.mini.data.length ≤ len ∧ c.sectors.limit = len ∧ c.mini.limit = len :=
+    c.fats.length * 4 ≤ c.sectors.data.length ∧ c.mini.data.length ≤ c.sectors.data.length ∧
+    c.sectors.data.length + rd.length ≤ file.length :=
   Cfb.new_alloc_bound file len c rd h
 
-theorem cfb_get_stream_alloc_bound (c : Cfb.CfbSt) (name : List Char) (rd : Cfb.Bytes) (len : Nat)
-    (h1 : c.sectors.limit = len) (h2 : c.mini.limit = len) (x : Cfb.Bytes) (c' : Cfb.CfbSt) (rd' : Cfb.Bytes)
-    (h : Cfb.getStream c name rd = .ok (x, c', rd')) :
-    x.length ≤ len ∧ c'.sectors.limit = len ∧ c'.mini.limit = len :=
-  Cfb.getStream_alloc_bound c name rd len h1 h2 x c' rd' h
+/-- the `len` argument of `Cfb::new` is a capacity hint only -/
+theorem cfb_new_len_independent (file : Cfb.Bytes) (len₁ len₂ : Nat) : Cfb.new file len₁ = Cfb.new file len₂ :=
+  Cfb.new_len_independent file len₁ len₂
+
+/-- every chain read yields at most the bytes read so far; cache + unread bytes are conserved -/
+theorem cfb_chain_alloc_bound (s : Cfb.Sectors) (start : Nat) (fats : List Nat) (rd : Cfb.Bytes) (len : Nat)
+    (x : Cfb.Bytes) (s' : Cfb.Sectors) (rd' : Cfb.Bytes) (h : s.getChain start fats rd len = .ok (x, s', rd')) :
+    x.length ≤ s'.data.length ∧ s'.data.length + rd'.length = s.data.length + rd.length :=
+  Cfb.getChain_alloc_bound s start fats rd len x s' rd' h
+
+/-- a stream is never longer than the bytes the reader state holds (conserved; at most twice the file length
+    after `Cfb::new`) -/
+theorem cfb_get_stream_alloc_bound (c : Cfb.CfbSt) (name : List Char) (rd : Cfb.Bytes)
+    (x : Cfb.Bytes) (c' : Cfb.CfbSt) (rd' : Cfb.Bytes) (h : Cfb.getStream c name rd = .ok (x, c', rd')) :
+    x.length ≤ c.bytes rd ∧ c'.bytes rd' = c.bytes rd :=
+  Cfb.getStream_alloc_bound c name rd x c' rd' h
+
+theorem cfb_bytes_after_new (file : Cfb.Bytes) (len : Nat) (c : Cfb.CfbSt) (rd : Cfb.Bytes)
+    (h : Cfb.new file len = .ok (c, rd)) : c.bytes rd ≤ 2 * file.length :=
+  Cfb.bytes_after_new file len c rd h
 
 /-- `get_stream` on arbitrary reader state: no panic, terminates -/
 theorem cfb_get_stream_total (c : Cfb.CfbSt) (name : List Char) (rd : Cfb.Bytes) :
